@@ -79,6 +79,12 @@ CHECKS = {
         "text": "Exhaustive TLC check of exactly-once / no-loss / FIFO / mutual exclusion and of completion under weak fairness (rendezvous of N, slow tasks) for N<=3; three spec mutants must be refuted. Every distinct simulated behaviour is replayed on the real pool with all threads gated at the hook points (a spec-legal step the code does not take = refusal), and free runs with seeded timing perturbation for N in 1..8 are validated event by event, with quiescence checks from the closures' own counters.",
         "note": "Trusted: TLC, hook placement (add-only, after each critical section), 3 s refusal timeout, single submitter.",
     },
+    "C12": {
+        "level": "model_checking",
+        "technique": "TLA+ Config.tla (four-step fold vs declarative Effective) model-checked by TLC with two order mutants refuted; TLC-generated source assignments rendered as environment / rws.config.toml / argv for real start-ups of the binary; observed effective values validated by TLC (Trace_Config)",
+        "text": "859 real launches: each of the 11 settings x all 8 subsets of sources (booleans over every value assignment) x file styles (comments, quotes, arrays, reversed key order, spaces), short/long flags, hyphen / [cors] table / root-key spellings, full configurations from every subset of sources, and the allow-all switch paired with every other CORS setting across sources; probes: announced+accepting address, thread-count line, buffer echo, CORS grants.",
+        "note": "CORS lists are observable only while the effective allow-all switch is off; the thread count is read from the start-up line.",
+    },
     "C13": {
         "level": "model_checking",
         "technique": "TLA+ Server.tla (no action writes fs: EnvFsUnchanged model-checked by TLC); wire traces of the real binary under strace validated by TLC (Trace_Server: TSyscall has no action for mutating calls, TManifest requires the manifest unchanged)",
